@@ -61,8 +61,9 @@ Types == << Struct(<<Field(A_, Prim("string")), Field(Id, Prim("int")), Field(AE
             \* scalar fields over a several-node result of a REVERSE axis: the value is that of the first node in document order (a = "1", d = "3")
             Struct(<<Field(Rel(<<Step("child", T_name("", <<"b">>)), Step("preceding-sibling", T_any)>>), Prim("string")),
                      Field(Rel(<<Step("child", T_name("", <<"b">>)), Step("preceding-sibling", T_any)>>), Prim("int")),
-                     Field(Rel(<<Step("child", T_name("", <<"e">>)), Step("preceding", T_name("", <<"d">>))>>), Ptr(Prim("float64")))>>),
-            \* (no slice field over a reverse axis: "result order" may then be ascending or descending, see C03)
+                     Field(Rel(<<Step("child", T_name("", <<"e">>)), Step("preceding", T_name("", <<"d">>))>>), Ptr(Prim("float64"))),
+                     \* a slice over it: "result order" may be ascending or descending (C03), the list carries rev
+                     Field(Rel(<<Step("child", T_name("", <<"e">>)), Step("preceding", T_name("", <<"d">>))>>), Slice(Prim("int")))>>),
             Bound2, Struct(<<Field(Cc, Bound2)>>), Slice(Struct(<<Field(Rel(<<Self>>), Ptr(Bound2))>>)),
             Ptr(Struct(<<Field(A_, Prim("string"))>>)), Ptr(Ptr(Struct(<<Field(Id, Prim("int32"))>>))),
             Slice(Prim("string")), Slice(Prim("int")), Slice(Prim("float32")), Slice(Prim("bool")), Slice(Ptr(Prim("string"))),
@@ -79,7 +80,7 @@ Init == ti \in 1..Len(Types) /\ fi = 0 /\ ri = 0
 Next == fi = 0 /\ fi' \in 1..Len(Forms) /\ ri' \in 1..Len(Results) /\ ti' = ti
 Ready == fi # 0
 Res == Eval(UDoc, UEnv, Results[ri], Ctx(1))
-Out == UnmarshalCall(UDoc, UEnv, Forms[fi], Types[ti], Res)
+Out == UnmarshalCall(UDoc, UEnv, Forms[fi], Types[ti], Res, MayRev(Results[ri]))
 
 \* laws: only a non-nil pointer to a struct or slice can succeed; a struct needs exactly one node
 Laws == Ready =>
